@@ -427,6 +427,12 @@ def gen_dns():
     pp = fn_body(dnspkt, "push_prefix")
     lim = grab("dns.pointerLimit", pp, r"if\s+it\.label\s*==\s*\*label\s*(?:&&\s*it\.data\s*<\s*([0-9A-Za-z_]+)\s*)?\{",
                "dns/dnspkt.rs push_prefix", lambda m: rust_int(m.group(1)) if m.group(1) else 65536)
+    # how push_prefix stores the offset of a label it has written: every `data:` initialiser in the function
+    stores = re.findall(r"\bdata\s*:\s*([^,]+),", pp or "")
+    kinds = {"wrap" if re.fullmatch(r"offset\s+as\s+u16", e.strip()) else
+             "saturate" if re.fullmatch(r"u16::try_from\(offset\)\.unwrap_or\(u16::MAX\)", re.sub(r"\s+", "", e)) else "unknown" for e in stores}
+    store_kind = kinds.pop() if len(kinds) == 1 else "unknown"
+    status["dns.offsetStore"] = {"ok": store_kind != "unknown" and len(stores) == 2, "value": store_kind, "where": "dns/dnspkt.rs push_prefix"}
     parse = strip_comments(read(os.path.join(CORE, "dns/parse.rs")))
     depth = grab("dns.pointerDepthLimit", fn_body(parse, "get_domain_into"), r"if\s+depth\s*>\s*([0-9]+)\s*\{", "dns/parse.rs get_domain_into", lambda m: int(m.group(1)))
 
@@ -469,6 +475,9 @@ def spliceRanges : List (Nat × Nat) := [({sp[0][0]}, {sp[0][1]}), ({sp[1][0]}, 
 
 /-- `push_prefix` only reuses a suffix-tree node whose offset is below this (65536 = no test) -/
 def pointerLimit : Nat := {nat(lim)}
+
+/-- the offset recorded for a written label: `u16::try_from(offset).unwrap_or(u16::MAX)` (true) or `offset as u16` (false) -/
+def offsetSaturates : Bool := {boolean(store_kind == "saturate")}
 
 /-- `if depth > N` in `get_domain_into` (first call has depth 1) -/
 def pointerDepthLimit : Nat := {nat(depth)}
